@@ -43,6 +43,10 @@ BUILT = {
    tech="exhaustive bounded-depth enumeration of interleaved per-asset operations on Market<1..4> against lock-step stand-alone OrderBooks; MarketEnv scenarios under all n! schedules with the per-asset candidate-schedule oracle",
    text="Market<A> (A=1..4, distinct ticks): every interleaving of per-asset operations to the stated depth; each asset must equal a stand-alone real OrderBook fed only its own operations at the same times, every all-asset query must be the array of the stand-alone values, other assets must be untouched. MarketEnv<1..4>: C08's oracle per asset with instructions spread over assets and every order of the shared queue.",
    note="Trusted: the single-asset OrderBook (C01-C06)."),
+ "C15": dict(cat="model_checking", engine="scriptrng+envx", ref="§3 C15",
+   tech="exhaustive enumeration of the shuffle's decision space through a scripted RngCore: all n! index scripts (n<=7 quick, 8 thorough) must map bijectively onto S_n and coincide with the library shuffle of the submission order; deviation-bounded scripts (<=2 non-zero answers) up to n=64; every batch content word over {limit, market, cancel, modify} x assets under every script",
+   text="Exact replacement for the statistical test: through the real Env::step / MarketEnv::step with a generator whose every answer is scripted. (a) all index scripts for n=2..7: script -> processing order is a bijection onto S_n, equal to rand's own shuffle of the submission order, with exactly n-1 draws; (b) n up to 64 with <=2 non-zero answers: equal to the library shuffle, all distinct, every item reaches the pivot position by the first draw alone; (c) the order is the same function of the script for every batch content (kinds, assets, submission order); (d) same script twice -> same order. If the implementation stops being a product of independent bounded draws the check degrades to necessary conditions (determinism, content independence, an information-theoretic bound on consumed generator bits) and says so.",
+   note="Trusted base: rand's bounded uniform draws are uniform and independent given a uniform generator. The property's own sampling test is not used."),
  "C12": dict(cat="model_checking", engine="seqx+envx", ref="§3 C12",
    tech="exhaustive bounded-depth enumeration with on- and off-grid prices offered to create, create_and_place and modify at every point of every history; grid monitor",
    text="Ticks 2,3,5,10 with off-grid neighbours of grid prices offered to every creating and modifying entry point at every point of every history to the stated depth; rejected creations must leave the snapshot untouched; every resting price on the grid; published levels account for all resting volume in range.",
